@@ -167,3 +167,41 @@ func H_C09_keep_kinds() {
 	A(o.Inn.CarryingUnknownFields() == (n.Inn.Flag != nil), "nested struct carries exactly the added bool")
 	zzrt.Cover("end")
 }
+
+
+// H_C09_keep_fill: the unknown-field store is an append-only byte buffer that grows geometrically:
+// what precedes an unknown container decides how much room is left when its header is
+// appended. An unknown string of n bytes (and optionally a list) precedes unknown maps.
+func H_C09_keep_fill(n int) {
+	nr := nw.NewRoot()
+	nr.R = zzrt.Int32("r")
+	b := zzrt.String("b", n)
+	in := &nw.Inner{A: zzrt.Int32("a"), B: &b}
+	if zzrt.Bool("set") {
+		in.C = []int32{zzrt.Int32("c")}
+	}
+	in.Cnt = map[string]int32{zzrt.String("ck", 1): zzrt.Int32("cv")}
+	if zzrt.Bool("set") {
+		in.Names = map[int32]string{zzrt.Int32("nk"): zzrt.String("nv", 2)}
+	}
+	nr.Inn = in
+	nr.Extra = &nw.Inner{A: 1}
+	o := od.NewRoot()
+	zzrt.Assert(o.Read(zzProto(zzBytes(nr))) == nil, "old reads new")
+	n2 := nw.NewRoot()
+	zzrt.Assert(n2.Read(zzProto(zzBytes(o))) == nil, "new reads what old re-wrote")
+	A := zzrt.Assert
+	A(n2.Inn != nil && n2.Inn.A == in.A && n2.Inn.B != nil && *n2.Inn.B == b, "string before the maps")
+	A(len(n2.Inn.C) == len(in.C) && (len(in.C) == 0 || n2.Inn.C[0] == in.C[0]), "list before the maps")
+	A(len(n2.Inn.Cnt) == 1, "string-keyed map kept")
+	for k, v := range in.Cnt {
+		w, ok := n2.Inn.Cnt[k]
+		A(ok && w == v, "string-keyed map entry")
+	}
+	A(len(n2.Inn.Names) == len(in.Names), "int-keyed map kept")
+	for k, v := range in.Names {
+		w, ok := n2.Inn.Names[k]
+		A(ok && w == v, "int-keyed map entry")
+	}
+	zzrt.Cover("end")
+}
